@@ -51,6 +51,9 @@ const deadlockText = "deadlock: main bubble goroutine has exited"
 
 // classifyPanic decides whether a panic came out of gossamer code (a violation
 // of the world's property, oracle id "panic") or out of the harness (trouble).
+// ClassifyPanic is classifyPanic for worlds that recover panics of goroutines they started themselves.
+func ClassifyPanic(stack string) (inGossamer bool, site string) { return classifyPanic(stack) }
+
 func classifyPanic(stack string) (inGossamer bool, site string) {
 	lines := strings.Split(stack, "\n")
 	// skip everything up to and including the frame of runtime.gopanic / panic
